@@ -274,9 +274,17 @@ def beta_reduce(call):
         return call
     inner = _bound_inside(f.body)
     subst, keep_p, keep_a = {}, [], []
+    def pure_read(e):
+        if isinstance(e, (ast.Name, ast.Constant)):
+            return True
+        if isinstance(e, ast.Attribute):
+            return pure_read(e.value)
+        return isinstance(e, ast.Call) and isinstance(e.func, ast.Name) and e.func.id == "len" and len(e.args) == 1 \
+            and not e.keywords and pure_read(e.args[0])
     for p, v in zip(a.args, call.args):
         free = {n.id for n in ast.walk(v) if isinstance(n, ast.Name)} - _bound_inside(v)
-        if (_simple(v) or isinstance(v, ast.Lambda)) and not (free & inner) and p.arg not in inner:
+        once = sum(1 for n in ast.walk(f.body) if isinstance(n, ast.Name) and n.id == p.arg) == 1
+        if (_simple(v) or isinstance(v, ast.Lambda) or (pure_read(v) and once)) and not (free & inner) and p.arg not in inner:
             subst[p.arg] = v
         else:
             keep_p.append(p)
